@@ -362,6 +362,7 @@ def run_main(argv, disk, torn=None):
     import mininec.mininec as mm
     if torn:
         disk.torn.update(torn)
+    n_opens = len(disk.opens)
     err = io.StringIO()
     outcome = None
     with S.Capture() as cap:
@@ -374,9 +375,13 @@ def run_main(argv, disk, torn=None):
             outcome = 'diskfault'
         except Exception as e:
             outcome = 'raise:%s' % type(e).__name__
+    # only files this invocation opened are its output; a path it never
+    # reached (early rc 23, exception before the write) keeps whatever the
+    # disk held before and is not an observable of this run
     files = {}
+    opened = set(p for p, mode in disk.opens[n_opens:])
     for flag, p in out_paths(argv):
-        files[flag + ':' + p] = disk.files.get(p)
+        files[flag + ':' + p] = disk.files.get(p) if p in opened else None
     return dict(outcome=outcome, stdout=cap.out.getvalue(),
                 stderr=cap.err.getvalue() + err.getvalue(), files=files)
 
